@@ -188,19 +188,19 @@ CHECKS = {
         "technique": "bounded model checking of the compiled Rust (Kani/CBMC): fully symbolic file name against a reference parser",
         "level_text": ("Bounded model checking of the one function that decides what counts as a WAL file: for every 24-byte ASCII name "
                        "filename_to_position returns Some(n) exactly when the name is 'wal-' + 20 decimal digits with value n <= u64::MAX; "
-                       "every ASCII name of any other length 0..30 and every 24-byte name containing one 2-byte (thorough: 3-byte) UTF-8 "
-                       "character is rejected; the tracked files are walked in numeric order across gaps (FileTracker, concrete numbers). The directory scan, the regular-file filter and file creation/removal are std::fs and not claimed."),
+                       "every ASCII name of any other length 0..30 and every 24-byte name containing one 2-byte (thorough: also one 3-byte or one 4-byte, "
+                       "the whole of U+0080..U+10FFFF minus surrogates) UTF-8 character is rejected; the tracked files are walked in numeric order across gaps (FileTracker, concrete numbers). The directory scan, the regular-file filter and file creation/removal are std::fs and not claimed."),
         "level_note": "trusted: kani-compiler, CBMC, CaDiCaL, the 20-line reference parser in harness/fname.rs; guarded forwarder to the private function (hook H4)",
         "filters": ["c17_"],
         "quick": {"harnesses": [("real", "c17_*_q*")], "jobs": 8, "timeout": 900},
         "thorough": {"harnesses": [("real", "c17_*")], "jobs": 12, "timeout": 2400, "solvers": ["cadical", "kissat"]},
         "rule": ("case = one symbolic name family: (a) all 24 bytes symbolic ASCII, (b) one per length 0..30 except 24, (c) one per "
-                 "position of a 2-byte / 3-byte UTF-8 character; the verdict for all byte values is the solver's; counted from the symex log"),
+                 "position of a 2-byte / 3-byte / 4-byte UTF-8 character; the verdict for all byte values is the solver's; counted from the symex log"),
         "samples": ["c17_tracker_q_gap: FileTracker over {0,1,3}: first/next walk 0,1,3 in order across the gap", "c17_ascii24_q: b[0..24] symbolic < 0x80, got == ref_parse(b)", "c17_non_ascii_q1: 2-byte character at byte 8..15, rest symbolic ASCII",
                     "c17_other_len_q: lengths 0..30 except 24"],
         "functions": ["rolling::directory::filename_to_position", "core::str::{starts_with, parse::<u64>}", "u8::is_ascii_digit", "rolling::file_number::FileTracker::{from_file_numbers,first,next} (ordering with gaps)"],
-        "bounds": {"quick": {"name_length": "0..30", "non_ascii": "one 2-byte character"}, "thorough": {"non_ascii": "one 2-byte or one 3-byte character", "solvers": "cadical + kissat"}},
-        "outside": ["Directory::open scan / is_file filter / to_str", "FileNumber::filename (format!) and the round trip through it", "create_file / remove_file only touch such names (std::fs)", "names with 4-byte or several multi-byte characters"],
+        "bounds": {"quick": {"name_length": "0..30", "non_ascii": "one 2-byte character"}, "thorough": {"non_ascii": "one 2-byte, one 3-byte (U+0800..U+FFFF minus surrogates) or one 4-byte (U+10000..U+10FFFF) character at every position", "solvers": "cadical + kissat"}},
+        "outside": ["Directory::open scan / is_file filter / to_str", "FileNumber::filename (format!) and the round trip through it", "create_file / remove_file only touch such names (std::fs)", "names with several multi-byte characters"],
         "assumptions": ["no stub", "names are built with from_utf8_unchecked from bytes constrained to valid UTF-8 of the stated shape"],
     },
 
